@@ -7,6 +7,7 @@
      permutation of the output of the unsplit search (a = 0, m = 1), with any pruning;
    - C03_prune_is_filter_partial: a hereditary predicate as preprune, as prune or in both
      places yields the unpruned output filtered by the predicate, in the same order;
+   - C03_yields_wellformed_partial: every yielded value is a well-formed graph on n vertices;
    - C03_recursive_presentation_partial: the iterative machine computes the depth-first
      recursive presentation [spec];
    - C03_counting_partial (and Props/C03_cert.v): the orbit-counting certificate.
@@ -14,8 +15,9 @@
    ([outputs .. = Ok L]); termination / panic-freedom of the model is not proved.
    NOT proved: that the unpruned, unsplit output is exactly one graph per isomorphism class
    (McKay's orderly generation relative to a correct [canon]); this is certified per n by the
-   harness with the certificate theorem.  The model is tied to the code by reading only (no
-   co-simulation). *)
+   harness with the certificate theorem.  The model is tied to the code by co-simulation for
+   n <= 5 (thorough: 6): the extracted [outputs], fed with a table of the real canonical
+   labelling's answers, yields the same sequences as search.WithPruning (stream cosim). *)
 From Coq Require Import List NArith ZArith Arith Bool Permutation.
 From Mamba Require Import Disjoint.Model Search.Model Search.SaveModel.
 From Mamba Require Import Search.Counting Search.ShardModel Search.ShardSim Search.Prune.
@@ -66,6 +68,22 @@ Example C03_prune_nonvacuous :
   len_res (outs0 no_prune many_edges 4 0 1) = 12 /\
   outs0 many_edges no_prune 4 0 1 = outs0 no_prune many_edges 4 0 1.
 Proof. exact (conj many_edges_grows prune_example). Qed.
+
+(* Every value yielded is a well-formed graph on exactly n vertices: NumberOfVertices = n, the
+   arrays have the right lengths, Edges holds 0/1, DegreeSequence[v] is the number of
+   neighbours of v and NumberOfEdges the number of ones ([wf_graph], ShardModel.v). *)
+Theorem C03_yields_wellformed_partial :
+  forall grow canon ksub_reps, canon_ignores_stale_bits canon ->
+  forall preprune prune n a m calls fuel L,
+  outputs grow canon ksub_reps preprune prune calls fuel (init n a m) = Ok L ->
+  Forall (wf_graph n) L.
+Proof. exact outputs_wf. Qed.
+Print Assumptions C03_yields_wellformed_partial.
+
+Example C03_wellformed_nonvacuous :
+  len_res (outs0 no_prune no_prune 4 1 2) = 9 /\
+  wf_graph 4 (4, 5%Z, [3; 3; 2; 2]%Z, [1; 1; 1; 1; 1; 0]%N).
+Proof. exact wf_example. Qed.
 
 (* The iterative machine (explicit stacks choices / currentPath, in-place AddVertex /
    RemoveVertex, cached automorphism group, resumption between calls) computes the recursive
